@@ -734,13 +734,6 @@ def check_convert(case, ctx):
     _core(ctx, x, conv["game"], case["rate"], case["io"])
 
 
-def _pad_width(case, failure):
-    """Empty-measure padding is written four columns wide whatever the chart's key count."""
-    return failure.kind.endswith("syntax:row-width-mixed")
-
-
-KNOWN_PREDICATES = {"pad_width": _pad_width}
-
 SUBS = [
     Sub("built", check_built, strategy=built_st, examples={"quick": 200, "thorough": 900}, shards={"quick": 6, "thorough": 16}),
     Sub("read", check_read, strategy=read_st, examples={"quick": 180, "thorough": 500}, shards={"quick": 4, "thorough": 16}),
